@@ -22,6 +22,12 @@ type Clause struct {
 	Local bool   // checked on the body, not exported to callers (may mention locals)
 }
 
+// CallEvent: see FuncContract.CallEvents
+type CallEvent struct {
+	Name string
+	Arg  int
+}
+
 type Emit struct {
 	Event string
 	Args  []string // expression texts
@@ -29,29 +35,31 @@ type Emit struct {
 }
 
 type FuncContract struct {
-	Key        string // normalized function key
-	Kind       string // func | iface | extern
-	PkgPath    string // package of the contract file (for name resolution)
-	Props      []string
-	Requires   []*Clause
-	Ensures    []*Clause
-	Invariants map[int][]*Clause
-	Modifies   []string
-	HasMod     bool
-	Emits      []Emit
-	Pure       bool // result is an uninterpreted function of the arguments, no effects
-	NoEffect   bool // no heap/trace effects, result unconstrained apart from ensures
-	Trusted    string
-	Params     []string // optional explicit parameter names (extern/iface)
-	Where      string
-	Lets       [][2]string // name, expr: ghost abbreviations usable in clauses (evaluated at entry)
-	Sweep      bool        // zero-annotation entry of a no-panic sweep: only the receiver is assumed non-nil
-	NoAutoFrame bool       // do not generate the automatic "objects that existed before the loop keep their content" loop invariants
-	Expose     bool        // element reads below existential quantifiers are also stated outside them (helps E-matching on goals)
-	GhostMaps  []string    // assumed contracts only: existentially chosen Int->Int maps, fresh at every call (e.g. the permutation of a sort)
-	Uses       map[string]map[string]bool // callee short name -> the only postconditions of it that are assumed at its call sites here
-	CutLoops   bool        // after a loop only the precondition and the loop invariants are known (path history is dropped)
-	NoSafety   string      // reason: safety (no-panic) obligations are not generated for this function
+	Key         string // normalized function key
+	Kind        string // func | iface | extern
+	PkgPath     string // package of the contract file (for name resolution)
+	Props       []string
+	Requires    []*Clause
+	Ensures     []*Clause
+	Invariants  map[int][]*Clause
+	Modifies    []string
+	HasMod      bool
+	Emits       []Emit
+	Pure        bool // result is an uninterpreted function of the arguments, no effects
+	NoEffect    bool // no heap/trace effects, result unconstrained apart from ensures
+	Trusted     string
+	Params      []string // optional explicit parameter names (extern/iface)
+	Where       string
+	Lets        [][2]string                // name, expr: ghost abbreviations usable in clauses (evaluated at entry)
+	Sweep       bool                       // zero-annotation entry of a no-panic sweep: only the receiver is assumed non-nil
+	CallEvents  []CallEvent                // calls of the named callees made by this function are recorded on the ghost trace: Called(id, argument)
+	ChanEvents  bool                       // select statements record what they send and receive on the ghost trace (Send / Recv events)
+	NoAutoFrame bool                       // do not generate the automatic "objects that existed before the loop keep their content" loop invariants
+	Expose      bool                       // element reads below existential quantifiers are also stated outside them (helps E-matching on goals)
+	GhostMaps   []string                   // assumed contracts only: existentially chosen Int->Int maps, fresh at every call (e.g. the permutation of a sort)
+	Uses        map[string]map[string]bool // callee short name -> the only postconditions of it that are assumed at its call sites here
+	CutLoops    bool                       // after a loop only the precondition and the loop invariants are known (path history is dropped)
+	NoSafety    string                     // reason: safety (no-panic) obligations are not generated for this function
 }
 
 type PredDef struct {
@@ -68,15 +76,15 @@ type SpecFun struct {
 }
 
 type ContractDB struct {
-	Funcs  map[string]*FuncContract
-	Preds  map[string]*PredDef
-	Specs  map[string]*SpecFun
-	Axioms []*Clause
-	Lemmas []*Clause // with Props
-	Events *EventTable
-	Files  []string
+	Funcs    map[string]*FuncContract
+	Preds    map[string]*PredDef
+	Specs    map[string]*SpecFun
+	Axioms   []*Clause
+	Lemmas   []*Clause // with Props
+	Events   *EventTable
+	Files    []string
 	LemmaPkg map[string]string
-	sweeps []sweepEntry
+	sweeps   []sweepEntry
 }
 
 type sweepEntry struct {
@@ -84,7 +92,7 @@ type sweepEntry struct {
 }
 
 var clauseKW = map[string]bool{"props": true, "requires": true, "ensures": true, "modifies": true, "loop": true, "emits": true,
-	"pure": true, "noeffect": true, "trusted": true, "params": true, "let": true, "ghostmap": true, "expose": true, "noautoframe": true, "internal": true, "nosafety": true, "cutloops": true, "uses": true}
+	"pure": true, "noeffect": true, "trusted": true, "params": true, "let": true, "ghostmap": true, "expose": true, "noautoframe": true, "chanevents": true, "callevents": true, "internal": true, "nosafety": true, "cutloops": true, "uses": true}
 
 var topKW = map[string]bool{"sweep": true, "func": true, "iface": true, "extern": true, "pred": true, "spec": true, "axiom": true, "lemma": true, "event": true}
 
@@ -299,6 +307,21 @@ func (db *ContractDB) parseFile(file, pkgPath string) error {
 					fc.Expose = true
 				case "noautoframe":
 					fc.NoAutoFrame = true
+				case "chanevents":
+					fc.ChanEvents = true
+				case "callevents":
+					// callevents Callee:argIndex ...   (argument 0 of a method call is the receiver)
+					for _, w := range strings.Fields(crest) {
+						i := strings.LastIndex(w, ":")
+						if i < 0 {
+							return fmt.Errorf("%s: callevents Callee:argIndex", cwhere)
+						}
+						ai, err := strconv.Atoi(w[i+1:])
+						if err != nil {
+							return fmt.Errorf("%s: callevents Callee:argIndex", cwhere)
+						}
+						fc.CallEvents = append(fc.CallEvents, CallEvent{Name: w[:i], Arg: ai})
+					}
 				case "ghostmap":
 					if fc.Kind == "func" && fc.Trusted == "" {
 						return fmt.Errorf("%s: ghostmap is only allowed in assumed contracts (extern, iface, trusted)", cwhere)
